@@ -101,6 +101,12 @@ def main():
                                                  "note": "affine*affine composed directly (A1*A2, A1*t2+t1) instead of through the (N+1)x(N+1) embedding - correct"}
     index["benign_array_assign_reuse_buffer"] = {"patch": "mutants/benign_array_assign_reuse_buffer.patch", "properties": [], "silent": ["C12", "C15", "C05"],
                                                  "note": "array copy assignment keeps its allocation when it exists and has the right size, and always updates the size - the correct version of seeds C12/C12b"}
+    index["benign_array_block_loader"] = {"patch": "mutants/benign_array_block_loader.patch", "properties": [], "silent": ["C06", "C07", "C08", "C12"],
+                                          "note": "array payload read through a 4 KiB buffer with the running offset applied - the correct version of seed C06d"}
+    index["benign_exception_mask_guard"] = {"patch": "mutants/benign_exception_mask_guard.patch", "properties": [], "silent": ["C08", "C06", "C07"],
+                                            "note": "field(istream&) suspends the caller's stream exception mask and restores it in a destructor that swallows the re-check failure - the correct version of seed C08d"}
+    index["benign_strided_view_strides"] = {"patch": "mutants/benign_strided_view_strides.patch", "properties": [], "silent": ["C16", "C01", "C14", "C05", "C13"],
+                                            "note": "row-major strides worked out once per VIEW in its constructor (no shared state) - the correct version of seed C16d; the view grows by 8N bytes"}
     index["benign_hilbert_thread_local_memo"] = {"patch": "mutants/benign_hilbert_thread_local_memo.patch", "properties": [], "silent": ["C16", "C14", "C01", "C05"],
                                                  "note": "per-thread (thread_local) memo of the last Hilbert index - the correct version of seed C16"}
     # seeded changes delivered by independent sub-agents (seeded/<id>/meta.json carries "check_with")
